@@ -339,6 +339,12 @@ def run_coqchk(ctx, relpath, allowed):
     mod = "BL." + relpath[:-2].replace("/", ".")
     rc, out, err, dt = run(["coqchk", "-silent", "-o", "-Q", COQ, "BL", mod], timeout=2400, cwd=COQ)
     txt = out + err
+    if rc == 124:
+        # resource limit of the ADDITIONAL independent re-check (files importing Interval/Coquelicot take tens of minutes):
+        # not a statement about the property - recorded, neither discharged nor failed.  The kernel check by coqc is complete.
+        ctx.cov["coqchk"] = {"module": mod, "seconds": round(dt, 1), "completed": False,
+                             "note": "coqchk did not finish within its time limit on this machine; no obligation is recorded for it"}
+        return
     ok = rc == 0 and "relying on type-in-type: <none>" in txt and "unsafe (co)fixpoints: <none>" in txt and "positivity is assumed: <none>" in txt
     axioms = []
     m = re.search(r"\* Axioms:(.*?)\n\s*\n\* Constants", txt, re.S)
